@@ -9,6 +9,19 @@
         obj = hex of a heap string | "lit" (the constant "", off=len=0)
         s = big[off : off+len];  b = StringToBinary(s);  r = append(b, extra...)
         app = content of r; moved = r's data pointer differs from b's (len > 0); orig = big unchanged
+    usx stk b2s <obj> <off> <len> <depth> => content=<hex> len=<n> ptr=<same|diff|-> after=<hex>
+    usx stk s2b <obj> <off> <len> <depth> => content=<hex> len=<n> cap=<n> ptr=<same|diff|-> after=<hex>
+        the source is the window [off, off+len) of a LOCAL 64-byte array (obj, zero padded) of a fresh goroutine; the
+        converted value is kept in a package-level variable; `depth` frames of 1 KiB then make the stack grow (move);
+        only then: content = the kept value; ptr = its data pointer vs the window's; after = the kept value once
+        the window was flipped through the array.  The model has no stack: an object is an object.
+    usx big b2s <off> <len> <spare> <mark> => len=<n> ptr=<same|diff> head=<hex> tail=<hex> ahead=<hex> atail=<hex>
+    usx big s2b <off> <len> <spare> <mark> => len=<n> cap=<n> ptr=<same|diff> head=<hex> tail=<hex> ahead=<hex> atail=<hex>
+        the window [off, off+len) of an object of off+len+spare ZERO bytes (only reserved memory; len up to 2^33),
+        `mark` (1..8 bytes) written at both ends of the window; b2s on obj[off : off+len : off+len+spare], s2b on the
+        string occupying the window.  head/tail = the first/last |mark| bytes read through the result, ahead/atail
+        the same after the marker bytes were flipped through the object.  The line carries no content: the
+        driver's memory for it is the function `bigByte` (sparse), not a list of bytes.
 -/
 import Verif.Base.DrvLoop
 import Verif.Model.Unsafex
@@ -55,9 +68,106 @@ def s2bModel (obj : Option Bytes) (off len : Nat) (extra : Bytes) : String :=
 def field (toks : List String) (key : String) : Option String :=
   (toks.find? (fun t => t.startsWith (key ++ "="))).map (fun t => (t.drop (key.length + 1)).toString)
 
+/-! ## `usx stk`: the same conversions, the object being a local array (64 bytes, zero padded) -/
+
+def stkCap : Nat := 64
+
+def padObj (o : Bytes) : Bytes := o ++ List.replicate (stkCap - o.length) 0
+
+def stkS2bModel (obj : Bytes) (off len : Nat) : String :=
+  let heap : Heap := [obj]
+  let s : GoStr := ⟨some ⟨0, off⟩, len⟩
+  match stringToBinary s s.ptr with
+  | .ok b =>
+    let ptr := if len = 0 then "-" else if b.ptr == s.ptr then "same" else "diff"
+    let after := match s.content heap with
+      | some c => (match heap.write s.ptr (flip c) with
+                   | some h' => optHex (b.content h')
+                   | none => "UNSAFE")
+      | none => "UNSAFE"
+    s!"content={optHex (b.content heap)} len={b.len} cap={b.cap} ptr={ptr} after={after}"
+  | .panic w => "PANIC " ++ w
+  | _ => "bad-op"
+
+/-! ## `usx big`: sparse memory -/
+
+/-- byte `pos` of the one object: zero except for `mark` at both ends of the window [off, off+len) -/
+def bigByte (off len : Nat) (mark : Bytes) (pos : Nat) : UInt8 :=
+  let k := mark.length
+  if off ≤ pos ∧ pos < off + k then (match mark[pos - off]? with | some x => x | none => 0)
+  else if off + len ≤ pos + k ∧ pos < off + len then (match mark[pos + k - (off + len)]? with | some x => x | none => 0)
+  else 0
+
+/-- `k` bytes at `p + at`; "UNSAFE" = outside the object -/
+def bigRead (total off len : Nat) (mark : Bytes) (p : Option Ptr) (at_ k : Nat) : String :=
+  match p with
+  | some ⟨0, o⟩ =>
+    if o + at_ + k ≤ total then toHex ((List.range k).map (fun i => bigByte off len mark (o + at_ + i)))
+    else "UNSAFE"
+  | _ => "UNSAFE"
+
+def bigEnds (total off len : Nat) (mark : Bytes) (p : Option Ptr) (n : Nat) : String × String :=
+  let k := mark.length
+  if n < k then ("-", "-") else (bigRead total off len mark p 0 k, bigRead total off len mark p (n - k) k)
+
+def bigModel (conv : String) (off len spare : Nat) (mark : Bytes) : String :=
+  let total := off + len + spare
+  let p : Ptr := ⟨0, off⟩
+  let render (rp : Option Ptr) (rlen : Nat) (capS : String) (same : Bool) : String :=
+    let e := bigEnds total off len mark rp rlen
+    let a := bigEnds total off len (flip mark) rp rlen
+    s!"len={rlen}{capS} ptr={if same then "same" else "diff"} head={e.1} tail={e.2} ahead={a.1} atail={a.2}"
+  if conv == "b2s" then
+    let b : Slice := ⟨some p, len, len + spare⟩
+    match binaryToString b p with
+    | .ok s => render s.ptr s.len "" (s.ptr == b.ptr)
+    | .panic w => "PANIC " ++ w
+    | _ => "bad-op"
+  else
+    let s : GoStr := ⟨some p, len⟩
+    match stringToBinary s s.ptr with
+    | .ok b => render b.ptr b.len s!" cap={b.cap}" (b.ptr == s.ptr)
+    | .panic w => "PANIC " ++ w
+    | _ => "bad-op"
+
+def bigVerdict (conv : String) (len : Nat) (mark : Bytes) (impl : String) : String :=
+  let toks := impl.splitOn " "
+  if impl.startsWith "PANIC" then "bad:C20:panic"
+  else if field toks "len" != some (toString len) then "bad:C20:len"
+  else if conv == "s2b" && field toks "cap" != some (toString len) then "bad:C20:cap"
+  else if field toks "ptr" != some "same" then "bad:C20:not-shared"
+  else if (field toks "head").bind parseHex != some mark || (field toks "tail").bind parseHex != some mark then "bad:C20:content"
+  else if (field toks "ahead").bind parseHex != some (flip mark) || (field toks "atail").bind parseHex != some (flip mark) then
+    "bad:C20:not-shared"
+  else "ok"
+
 def handleUsx (args : List String) (impl : String) : String × String :=
   let toks := impl.splitOn " "
   match args with
+  | ["usx", "big", conv, off, len, spare, mark] =>
+    match off.toNat?, len.toNat?, spare.toNat?, parseHex mark with
+    | some off, some len, some spare, some mark =>
+      let k := mark.length
+      if (conv != "b2s" && conv != "s2b") || k < 1 || k > 8 || len < 2 * k || len > 8589934592
+         || off > 65536 || spare > 65536 then ("bad-op", "na")
+      else (bigModel conv off len spare mark, bigVerdict conv len mark impl)
+    | _, _, _, _ => ("bad-op", "na")
+  | ["usx", "stk", conv, obj, off, len, depth] =>
+    match parseObj obj, off.toNat?, len.toNat?, depth.toNat? with
+    | some o, some off, some len, some depth =>
+      if (conv != "b2s" && conv != "s2b") || o.length > stkCap || off + len > o.length || depth > 8192 then ("bad-op", "na")
+      else
+        let want := (o.drop off).take len
+        let verdict :=
+          if impl.startsWith "PANIC" then "bad:C20:panic"
+          else if (field toks "content").bind parseHex != some want then "bad:C20:content"
+          else if field toks "len" != some (toString len) then "bad:C20:len"
+          else if conv == "s2b" && field toks "cap" != some (toString len) then "bad:C20:cap"
+          else if len > 0 && field toks "ptr" != some "same" then "bad:C20:not-shared"
+          else if (field toks "after").bind parseHex != some (flip want) then "bad:C20:not-shared"
+          else "ok"
+        (if conv == "b2s" then b2sModel (some (padObj o)) off len (stkCap - off) else stkS2bModel (padObj o) off len, verdict)
+    | _, _, _, _ => ("bad-op", "na")
   | ["usx", "b2s", obj, off, len, cap] =>
     match off.toNat?, len.toNat?, cap.toNat? with
     | some off, some len, some cap =>
